@@ -1,7 +1,14 @@
 """C13 — diffs can be reversed and composed (src/diff.c: lyd_diff_reverse_all, lyd_diff_merge_all).
 
+(P) Props/C13.lean, Props/C13Merge.lean (23 theorems): reverse_apply_partial (unbounded: exact diffs of good trees — leaves,
+      containers, choices, system-ordered lists / leaf-lists at any depth — reversed and applied give the tree back, default
+      flags included), reverse_involutive, the witnesses of F15 / F18, the 4 x 4 merge table against the source
+      (Generated/Diff13.lean, tools/extractors/diff13.py) and, for leaves, cell by cell against the composition of the two
+      applications (merge_cell_*, merge_cell_apply, merge_cancel_leaf, merge_rejected_unreachable).
 (K) correspondence, harness `api_diff13` vs model `LyModel.Diff` (Reverse.lean, MergeDiff.lean), component `diff13`:
-      diff      libyang's diff tree = the model's (all siblings; shared with C06)
+      diff      libyang's diff tree = the model's (all siblings; C06's correspondence: a case where it fails is skipped here)
+      exact     [model only] the hypothesis of reverse_apply_partial — the diff is an exact diff of a good tree — holds for
+                every generated pair over schemas without user-ordered nodes
       reverse   lyd_diff_reverse_all(diff(A,B)) = Diff.reverse, token for token (operation, orig-value/orig-default/key/value/
                 position/orig-* metadata in their order, values, flags), then the tree lyd_diff_apply_all makes of B with it and
                 the verdict of the comparison with A
@@ -10,12 +17,15 @@
 (L) laws on the implementation, from the same replies (the verdicts are computed by libyang itself:
       lyd_compare_siblings(FULL_RECURSION | DEFAULTS), or re-validation + comparison without the flag when the diffs ignore
       defaults):  apply(B, reverse(diff(A,B))) = A;  apply(A, merge(diff(A,B), diff(B,C))) = C;  C = A  =>  merge is empty;
-      plus (`lawr`, `lawm`): inputs unchanged, reverse(reverse(d)) = d and takes A to B, merge empty <=> diff(A,C) empty,
-      the returned pointer is the first sibling.
-Generators: random S1 schemas (treegen), B = random edit of A, C = random edit of B / C = A / C = edit of A / independent;
-exhaustive: all pairs of duplicate-free user-ordered sequences over <= 4 keys (reverse), all triples over tiny per-node state
-spaces (merge).
-Known findings: F15 (reverse of user-ordered changes), F18 (three cells of merge) — recognised by their specific signatures.
+      `data` stays at the first sibling after apply; plus (`lawr`, `lawm`): inputs unchanged, reverse(reverse(d)) = d and takes
+      A to B, merge empty <=> diff(A,C) empty, the returned pointer is the first sibling.
+Generators: random S1 schemas (treegen; a batch without any user-ordered / state node = the fragment of the theorems),
+B = random edit of A, C = random edit of B / C = A / C = edit of A / independent / minimal; corpus/diff13 (witnesses of all
+findings); exhaustive: all pairs of duplicate-free user-ordered sequences over <= 4 keys (reverse), all triples over 9 tiny
+per-node state spaces under the 4 option settings (merge).
+Known findings: F15 (reverse of user-ordered changes), F18 (merge without LYD_DIFF_DEFAULTS / with LYD_DIFF_MERGE_DEFAULTS),
+F131 (leak in apply), F133 (NULL passed to strcmp in lyd_diff_is_redundant), F134 (stale `data` after apply) — recognised by
+their specific signatures; everything else that breaks a law is a violation.
 """
 import itertools, json, os
 from vlib import treegen as tg, paths
@@ -35,7 +45,10 @@ ASSUMPTIONS = [
     "the default flag of non-presence containers is not compared (diff dumps, apply results): lyd_compare_siblings and "
     "lyd_diff_apply_all ignore it",
     "equality after apply is lyd_compare_siblings(FULL_RECURSION | DEFAULTS) (with LYD_DIFF_DEFAULTS) or re-validation followed by "
-    "lyd_compare_siblings(FULL_RECURSION) (without); the model compares the explicit parts in the second case",
+    "lyd_compare_siblings(FULL_RECURSION) (without); the model compares the explicit parts in the second case and answers "
+    "'unknown' (verdict not compared, about 8 % of the verdicts without LYD_DIFF_DEFAULTS) when the result carries default nodes "
+    "the wanted tree does not have or differs from it only in leaves with their schema default value: what lyd_validate_module "
+    "makes of those (LYD_NEW flags, cases) is not modelled; the implementation's own verdict is always evaluated as a law",
     "reverse_apply_partial is proved for exact diffs (Diff/Exact13.lean: exactDiff) of good trees (goodT) under KeyOrder (the type "
     "plugins' sort callbacks are strict total orders); that lyd_diff_siblings(LYD_DIFF_DEFAULTS) produces exact diffs on the "
     "fragment is evaluated on every generated pair whose trees are good (op `exact`), not proved",
